@@ -26,6 +26,9 @@ class CaseTimeout(BaseException):
     test cannot swallow it with `except Exception`)"""
 
 
+STUCK_SECONDS = 120
+
+
 class ShardTimeout(BaseException):
     pass
 
@@ -60,9 +63,11 @@ class Recorder:
     def case(self, sub='main', n=1):
         self.evaluations += n
         self.sub[sub] += n
+        self.last_beat = time.time()
 
     def trans(self, n=1):
         self.transitions += n
+        self.last_beat = time.time()
 
     def trace(self, n=1):
         self.traces += n
@@ -157,8 +162,16 @@ def _run_shard(job):
     try:
         getattr(mod, shard['fn'])(rec, **shard['args'])
     except ShardTimeout:
-        rec.violation(f"timeout:{shard['fn']}", f'shard {shard} did not finish within {shard_timeout}s (non-termination or blow-up)',
-                      shard['fn'], shard['args'])
+        # a shard that ran out of time while still making progress (a case / transition was recorded in the last two minutes) is a
+        # shard that is too big for its time limit - a cost problem of the CHECK, reported as a harness error (exit 2), never as a verdict;
+        # a shard stuck in ONE step for minutes is the code under test not returning
+        idle = time.time() - getattr(rec, 'last_beat', t0)
+        if idle > STUCK_SECONDS:
+            rec.violation(f"timeout:{shard['fn']}", f'shard {shard} did not finish within {shard_timeout}s: no progress for the last {int(idle)}s '
+                          f'(non-termination or blow-up in one step)', shard['fn'], shard['args'])
+        else:
+            err = f'shard {shard} did not finish within {shard_timeout}s although it was still making progress: the shard is too big for its time limit'
+
     except CaseTimeout:
         rec.violation(f"timeout:{shard['fn']}", f'shard {shard}: unguarded case timeout', shard['fn'], shard['args'])
     except BaseException as e:
